@@ -83,9 +83,6 @@ def answer (toks : List String) : String :=
   | ["rank2", row] =>
       let l := rats row
       showNats ((rng l.length).map (rank2 l.length (ratFn l)))
-  | ["rankord", row] =>
-      let l := rats row
-      showNats ((rng l.length).map (rankOrd l.length (ratFn l)))
   | _ => "bad-request"
 
 def main : IO Unit := runDriver answer
